@@ -4,7 +4,9 @@ set -e
 cd "$(dirname "$0")/../harness"
 export GOFLAGS=-mod=mod GOPROXY=off GOSUMDB=off GOTOOLCHAIN=local
 mkdir -p ../out/bin
-go build -tags verif -o ../out/bin/replay-setup ./cmd/replay
-go build -race -tags verif -o ../out/bin/replay-setup-race ./cmd/replay
+for d in cmd/*/; do
+  go build -tags verif -o ../out/bin/setup-$(basename $d) ./$d
+done
+go build -race -tags verif -o ../out/bin/setup-race ./rp
 java -cp /opt/veriftools/tla/tla2tools.jar tlc2.TLC -h >/dev/null 2>&1 || true
 echo setup ok
